@@ -261,7 +261,7 @@ pub fn driver_answers_for_declared_part(deadline: &Deadline) -> Stats {
 pub fn static_rows_part(deadline: &Deadline) -> Stats {
     use crate::driver::Step;
     let texts = [
-        "A K\ndeclare K = 2 + 3;\n1 5\n2 X\nC 7\n",
+        "A K\ndeclare K = 2 + 3;\n1 5\n2 X\nC 7\n3 Z\n4 (0-1)\n",
         "A Q\ndeclare K = 7;\n1 X\nloop(i,2)\n(i) 1\nend loop\n",
         "A W K Q\ndeclare K = 1 << 40;\ndeclare W = 5 + 1;\n1 X (0-1) 3\n",
         "K A\nlet K = 4;\ndeclare K = 9;\n(K) 1\nX (K)\n",
@@ -288,6 +288,17 @@ pub fn static_rows_part(deadline: &Deadline) -> Stats {
                 return;
             }
         };
+        // the first program's expected entries written out: a number, X, the three rows of the clock cycle
+        // (two of them unchecked), Z - a declared signal can be expected to be Z like any other -, -1 on 64 bits
+        if u == 0 {
+            let lit: Vec<Vec<(String, V)>> = vec![vec![("K".into(), V::Num(5))], vec![("K".into(), V::X)], vec![], vec![], vec![("K".into(), V::Num(7))], vec![("K".into(), V::Z)], vec![("K".into(), V::Num(-1))]];
+            let dynk: Vec<Vec<(String, V)>> = want.iter().map(|r| r.iter().filter(|(n, _)| n == "K").cloned().collect()).collect();
+            if dynk != lit {
+                let k = dynk.iter().zip(lit.iter()).position(|(a, b)| a != b).unwrap_or(dynk.len().min(lit.len()));
+                st.violation("expected entry of a declared signal differs from its column", (21 << 40) + u, format!("{text}row {k}: the column K gives {:?}, the row's expected entry is {:?}", lit.get(k), dynk.get(k)), || json!({"kind": "static", "text": text, "signals": sigs_json(&sigs), "expected": [format!("{:?}", lit.get(k))], "observed": [format!("{:?}", dynk.get(k))]}));
+                return;
+            }
+        }
         if want != got {
             let k = want.iter().zip(got.iter()).position(|(a, b)| a != b).unwrap_or(want.len().min(got.len()));
             st.violation("static rows differ from the dynamic rows in their expected entries", (20 << 40) + u, format!("{text}row {k}: dynamic run has expected entries {:?}, the static row {:?}", want.get(k), got.get(k)), || json!({"kind": "static", "text": text, "signals": sigs_json(&sigs), "expected": [format!("{:?}", want.get(k))], "observed": [format!("{:?}", got.get(k))]}));
